@@ -1754,7 +1754,13 @@ pub fn codegen(
                         let errors = ctx
                             .changed
                             .iter()
-                            .sorted_by_key(|k| k.id.to_string())
+                            // (by name and location, so that the order never depends on the hash set)
+                            .sorted_by_key(|k| {
+                                (
+                                    k.id.to_string(),
+                                    k.span.map(|s| (s.low().as_usize(), s.high().as_usize())),
+                                )
+                            })
                             .map(|item| {
                                 let mut diag = Diagnostic::error().with_message(format!(
                                     "the value of '{}' did not stabilize after {} passes",
